@@ -1,33 +1,96 @@
 (* C11 - Every well-formed MTBL file is readable, not only the ones today's writer emits.
-   FULL STATEMENT: C11_statement - for every byte string that the independent decoder
-   accepts as a table with strictly increasing keys (format v2; v1 differs only in
-   the length prefix), the model reader returns exactly the decoded entries.
-   PROVED so far: the block iterator is correct for EVERY well-formed block - any
-   legal restart positions (ridx arbitrary, strictly increasing from 0), whatever
-   prefix sharing the encoder chose (blocks are abstract: reconstructed keys), single-
-   entry and many-entry blocks (T03a/T03b restated as T11_any_layout_partial); and
-   opening never reads outside the file (C19).  NOT yet proved: decoding of bytes into
-   those blocks and the index hand-over.  Engine rd feeds files from an independent
-   encoder with random legal layouts, format v1 and v2, to implementation and model. *)
-From Coq Require Import NArith List Lia.
-From Mtbl Require Import model.Bytes model.Order spec.Parse model.Reader proofs.BlockProofs.
+   PROVED (T11_legal_tables): for EVERY byte string f - whoever produced it - that the
+   model reader opens and that passes the executable structural check table_check
+   (spec/TableCheck.v: each index value is the offset of a block that get_block loads;
+   in the index block and in every data block entry offsets and keys strictly increase,
+   every restart offset is the offset of an entry that shares nothing, the restart
+   entries increase starting at entry 0; block offsets increase; last key of block i
+   <= separator i < first key of block i+1):
+     - iterating from the start returns exactly the entries of the blocks, in order;
+     - get / get_prefix / get_range return exactly the matching entries;
+     - every history of next / seek on the four iterator kinds equals the history on a
+       cursor over that entry list.
+   The check does not care which restart positions were chosen, how much of a key was
+   shared, where inside the legal interval a separator lies, how the entries were cut
+   into blocks, whether the file is v1 or v2, or how many foreign bytes precede the
+   table: all of those only influence whether get_block/block_init decode the bytes to
+   blocks that pass.  Entry decoding itself (parse_entries) is shared between the check
+   and the reader model; that the decoded entries are the ENCODED ones is established
+   (a) for the writer's encoder by the block round trip of C01, (b) for the independent
+   encoder by engine rd: on every generated file the extracted table_check must accept
+   and its entry list must equal what was encoded - after which this theorem applies -
+   and implementation and model are compared on iteration, lookups and seeks.
+   Not covered by proof: restart arrays above 4 GiB (the model has the branch; it is
+   executed by engine rd on a sparse block only through block_init). *)
+From Coq Require Import NArith ZArith List Lia.
+From Mtbl Require Import model.Bytes model.Order model.Writer spec.Parse model.Reader spec.TableCheck
+  proofs.BlockProofs proofs.LookupProofs proofs.ReaderProofs proofs.CheckProofs.
 Local Open Scope N_scope.
 
-Section C11.
-Variable decompress : N -> bytes -> res bytes.
-Definition C11_statement : Prop :=
-  forall f t, wf_bytes f -> parse_table decompress 0 f = inr t ->
-    strictly_increasing (map fst (table_entries t)) = true ->
-    read_all decompress (S (length (table_entries t))) f = Ok (table_entries t).
-End C11.
-
-Theorem T11_any_layout_partial : forall b ridx, wfb b ridx ->
-  (forall s target, st_ok b ridx s -> exists s', block_seek b s target = Ok s' /\ positioned b ridx s' target) /\
-  (exists s, block_seek_to_first b = Ok s /\ st_ok b ridx s /\ bs_valid s = true /\ bs_cur s = 0%nat) /\
-  (forall s, st_ok b ridx s -> bs_valid s = true -> st_ok b ridx (block_next b s)).
+Theorem T11_legal_tables : forall decompress r ib iridx bl,
+  table_check decompress r = Some (ib, iridx, bl) ->
+  let nb := length bl in
+  let es := table_entries_of nb (blk bl) in
+  (* full iteration *)
+  (forall fuel, (length es < fuel)%nat ->
+     exists it, reader_iter decompress r = Ok (Some it) /\ drain decompress fuel r it = Ok es) /\
+  (* lookups *)
+  (forall kind k0 k1 fuel, kind <> KIter -> (length es < fuel)%nat ->
+     match reader_iter_init decompress r kind k0 (match kind with KRange => k1 | _ => k0 end) with
+     | Ok (Some it) => drain decompress fuel r it = Ok (filter (fun e => lookup_pred kind k0 k1 (fst e)) es)
+     | Ok None => filter (fun e => lookup_pred kind k0 k1 (fst e)) es = []
+     | _ => False
+     end) /\
+  (* histories *)
+  (exists it, reader_iter decompress r = Ok (Some it) /\
+     forall ops, run_model decompress r it ops = Ok (run_spec nb (blk bl) KIter (it_k it) (Some 0%nat) ops)) /\
+  (forall kind key bound,
+     match reader_iter_init decompress r kind key bound with
+     | Ok (Some it) => forall ops, run_model decompress r it ops =
+                                   Ok (run_spec nb (blk bl) kind bound (Some (gfirst nb (blk bl) key)) ops)
+     | Ok None => gfirst nb (blk bl) key = total nb (blk bl)
+     | _ => False
+     end).
 Proof.
-  intros b ridx W. split; [exact (block_seek_ok b ridx W)|].
-  split; [exact (seek_first_ok b ridx W)|].
-  intros s Hs Hv. exact (proj1 (block_next_ok b ridx W s Hs Hv)).
+  intros decompress r ib iridx bl H nb es. pose proof (table_check_sound decompress r ib iridx bl H) as T.
+  assert (Hlen : length es = total nb (blk bl)) by (unfold es, table_entries_of, Gents, total; apply map_length).
+  split; [|split; [|split]].
+  - intros fuel Hf. eapply table_iter_all; [exact T|lia].
+  - intros kind k0 k1 fuel Hk Hf. eapply table_lookup; [exact T|exact Hk|lia].
+  - eapply table_history_iter; exact T.
+  - eapply table_history_lookup; exact T.
 Qed.
-Print Assumptions T11_any_layout_partial.
+Print Assumptions T11_legal_tables.
+
+(* the table without entries (an index block with no entry and one restart point, which is
+   what every writer emits for it): nothing to iterate, every lookup is NULL *)
+Theorem T11_empty_table : forall decompress r ib r0,
+  r_index r = Some ib -> ab_entries ib = [] -> ab_restarts ib = [r0] ->
+  reader_iter decompress r = Ok None /\
+  forall kind key bound, reader_iter_init decompress r kind key bound = Ok None.
+Proof.
+  intros decompress r ib r0 Hi He Hr. unfold reader_iter, reader_iter_init. rewrite Hi.
+  destruct ib as [es rs rl w]. cbn [ab_entries ab_restarts] in He, Hr. subst es rs.
+  split.
+  - unfold block_seek_to_first, seek_restart, nrest, restart_at. cbn [ab_restarts ab_entries length find_off nth N.to_nat].
+    change (0 <? N.of_nat 1) with true. cbn [negb].
+    replace (r0 <? 0) with false by (symmetry; apply N.ltb_ge, N.le_0_l). reflexivity.
+  - intros kind key bound. reflexivity.
+Qed.
+Print Assumptions T11_empty_table.
+
+(* non-vacuity: a three-block table written by the model writer passes the check *)
+Example T11_example :
+  let o := mkwopts 0 (-10000)%Z 64 2 in
+  let es := [([], [9]); ([97], repeat 120 30); ([97; 98], repeat 121 30); ([98], repeat 122 30); ([98; 0], [])] in
+  match writer_session (fun _ _ => Fail) (fun _ _ _ => Fail) o 0 es with
+  | Ok (w, _) => match fst (reader_open (writer_bytes w) false) with
+                 | Ok (Some r) => match table_check (fun _ _ => Fail) r with
+                                  | Some (_, _, bl) => (1 < length bl)%nat /\ table_entries_of (length bl) (blk bl) = es
+                                  | None => False
+                                  end
+                 | _ => False
+                 end
+  | _ => False
+  end.
+Proof. vm_compute. split; [lia|reflexivity]. Qed.
